@@ -201,6 +201,19 @@ var bigVarints = [][]byte{
 	{0x80, 0x80, 0x40}, // 1M
 }
 
+// deepJSON nests arrays (kind 0), objects (1) or both in turn (2) depth levels deep around a string
+func deepJSON(depth, kind int) any {
+	var v any = "bottom"
+	for i := 0; i < depth; i++ {
+		if kind == 0 || (kind == 2 && i%2 == 0) {
+			v = []any{v}
+		} else {
+			v = map[string]any{"n": v}
+		}
+	}
+	return v
+}
+
 // mutate derives a hostile input from valid encodings
 func mutate(r *rand.Rand, valid [][]byte) []byte {
 	base := append([]byte(nil), valid[r.IntN(len(valid))]...)
@@ -361,6 +374,27 @@ func c04Setup(c *core.Ctx) {
 			v := (&gen.VG{R: r, C: t.cfg, Budget: 80}).Value(t.typ, "")
 			if data, err, pn := marshal(p, nil, ptrTo(v)); err == nil && pn == "" && len(data) > 0 && len(data) < 3000 {
 				vs = append(vs, data)
+			}
+		}
+		// free-form JSON parts nest as deep as the data says, not as deep as the type: valid values
+		// 66, 130 and 300 levels deep (arrays, objects, alternating) join the material (round 12: k04)
+		for _, depth := range []int{66, 130, 300} {
+			for kind := 0; kind < 3; kind++ {
+				var v reflect.Value
+				switch t.typ {
+				case model.JSONMapT:
+					v = reflect.ValueOf(map[string]any{"k": deepJSON(depth, kind)})
+				case model.JSONArrayT:
+					v = reflect.ValueOf([]any{1, deepJSON(depth, kind)})
+				case reflect.TypeOf(tJSON{}):
+					v = reflect.ValueOf(tJSON{M: map[string]any{"deep": deepJSON(depth, kind)}, A: []any{deepJSON(depth/2, kind)}, X: 7})
+				default:
+					continue
+				}
+				if data, err, pn := marshal(p, nil, ptrTo(v)); err == nil && pn == "" && len(data) > 0 && len(data) < 4000 {
+					vs = append(vs, data)
+					c.Rec.Count("deep_json_seeds", 1)
+				}
 			}
 		}
 		if len(vs) == 0 {
@@ -900,7 +934,7 @@ func init() {
 		ID:        "C04",
 		Technique: "hostile-input monitor in child processes: exhaustive short strings, truncations and seeded mutations of valid encodings against ~45 (target type, configuration) pairs; panic/fault capture, guard-page read-only inputs with exact capacity, CPU-time meter and watchdog, allocation meter, spare-capacity differential; ASan lane in thorough",
 		Rule: "targets: one (type, configuration) pair per codec family (scalars, every slice wrapper, maps incl. struct keys and proto maps, times x2, null.*, JSON any, BigQuery time, recursive and mutually recursive structs, index 0 and 100000, plenc's own Descriptor, 64 KiB values and 1120-byte keys in maps, slices and pointers). " +
-			"inputs: ALL strings of length <= 3 (thorough: 4) over a 24-symbol alphabet of tag / length / continuation bytes, every prefix (and the whole) of 24 valid encodings per target and of crafted map entries no encoder writes (key only, value only, empty, duplicated key; both map forms), and seeded mutants (truncate, bit flip, interesting byte, huge/over-long varints replacing or inserted, duplicate/delete span, splice, wire-type flip, random tail; every fourth block from another target's encodings). " +
+			"inputs: ALL strings of length <= 3 (thorough: 4) over a 24-symbol alphabet of tag / length / continuation bytes, every prefix (and the whole) of 24 valid encodings per target (for the JSON-any targets also of values nested 66, 130 and 300 levels deep) and of crafted map entries no encoder writes (key only, value only, empty, duplicated key; both map forms), and seeded mutants (truncate, bit flip, interesting byte, huge/over-long varints replacing or inserted, duplicate/delete span, splice, wire-type flip, random tail; every fourth block from another target's encodings). " +
 			"Each input is decoded by Unmarshal (one in four also into a prepared target: empty non-nil containers and set pointers, or what a valid message left) and (non-recursive targets) Descriptor.Read - through the target's descriptor and through another version of it that has lost fields at every depth but kept its type names - from a PROT_READ mapping whose end abuts a PROT_NONE page; one input in 8 is decoded again from heap buffers with spare capacity filled with two different patterns. " +
 			"Verdict per call: no panic/fault, thread CPU <= 2 s (watchdog: 4 s of process CPU without returning), allocation <= 64 KiB + 64 x S_T x (len+16) where S_T is the largest element/bucket size reachable in the target type. distinct = distinct (target, mutant) pairs",
 		Assume:     []string{"allocation is runtime.MemStats.TotalAlloc read around the call in a single-goroutine child", "the watchdog decides on process CPU time, not wall time"},
